@@ -182,6 +182,9 @@ class Evaluator(object):
             return parity8(self.ev(args[0]))
         if op == '!':
             return (~self.ev(args[0])) & mask
+        if op in ('double_to_mem_64', 'mem_64_to_double') and len(args) == 1 and w == 64:
+            # uninterpreted 64-bit conversions (x87 store / load of a double): any fixed function serves; identity here
+            return self.ev(args[0]) & mask
         if op in ('bsf', 'bsr') and len(args) == 1:
             # the machine keeps these symbolic; any fixed function of the operand serves (both sides use this one)
             v = self.ev(args[0]) & mask
